@@ -28,6 +28,7 @@ import PybropsModel.Lemmas.RecombSelf
 import PybropsModel.Lemmas.RecombGMap
 import PybropsModel.Lemmas.RecombGenN
 import PybropsModel.Lemmas.RecombStarts
+import PybropsModel.Lemmas.RecombShare
 set_option autoImplicit false
 set_option linter.unusedSectionVars false
 
@@ -1454,5 +1455,67 @@ example : Recomb.selfGens (α := Int) [(1:Rat)/2, 1/4] 1 [([20, 21], [30, 31])] 
 example : Mating.generate (α := Int) .twoWayDH [([10, 11], [20, 21]), ([30, 31], [40, 41])] [[0, 1]] [1] [2] 0
     [(1:Rat)/2, 1/4] [[[1/4, 1/2]], [[3/4, 3/4]], [[1/4, 1/2], [3/4, 1/8]]] =
     .ok ([([30, 31], [30, 31]), ([20, 31], [20, 31])], []) := by decide +kernel
+
+/-! ## Round 5: histories over several matrix objects that hold their arrays by reference
+
+Every mating protocol, `select_taxa` and a constructor call on the arrays of another matrix hand the parents'
+`vrnt_genpos` / `vrnt_xoprob` array OBJECTS on; `interp_xoprob` assigns two new arrays to the object it is called on
+(`Model/RecombShare.lean`: a heap that only grows, objects = pairs of references). -/
+section sharedArrays
+variable {α : Type} [Field α] [CharZero α]
+open RecombShare
+
+/-- **`interp_xoprob` on one object leaves every other object alone**: whatever the history before (any number of
+    objects derived from each other, all sharing arrays), object `j ≠ i` reads the same genetic positions and
+    crossover probabilities after `interp_xoprob` on object `i` as before. -/
+theorem interp_leaves_others_alone {β : Type} (st : St β) (ops : List (Op β)) (i j : Nat) (gp xo : β)
+    (h : WF st) (hij : j ≠ i) :
+    read (step (run st ops) (.interp i gp xo)) j = read (run st ops) j := by
+  have hwf : ∀ (ops : List (Op β)) (st : St β), WF st → WF (run st ops) := by
+    intro ops
+    induction ops with
+    | nil => intro st h; exact h
+    | cons op rest ih => intro st h; exact ih _ (wf_step st op h)
+  exact read_interp_ne _ i j gp xo (hwf ops st h) hij
+
+/-- … and the object itself reads exactly what was assigned. -/
+theorem interp_reads_assigned {β : Type} (st : St β) (i : Nat) (gp xo : β) (hi : i < st.objs.length) :
+    read (step st (.interp i gp xo)) i = some (gp, xo) :=
+  read_interp_self st i gp xo hi
+
+/-- **Every object of every history stays consistent**: if every `interp_xoprob` of the history assigns a pair
+    (positions, probabilities) related by `P`, then after the whole history (objects derived from each other in any
+    order, any of them re-interpolated any number of times) EVERY object reads a pair related by `P`. -/
+theorem history_objects_consistent {β : Type} (P : β → β → Prop) (st : St β) (ops : List (Op β))
+    (hg : Good P st) (hops : ∀ op ∈ ops, OkOp P op) : Good P (run st ops) :=
+  good_run P ops st hg hops
+
+/-- the instance the harness checks (`kind = shared`): `P gp xo` := "xo is what SOME map function assigns to the
+    distances of gp"; every object of the history then passes the chromosome-start Spec `specStarts` on what it reads -/
+theorem history_objects_pass_spec_starts [DecidableEq α] (chr : List Int) (st : St (List α)) (ops : List (Op (List α)))
+    (hg : Good (fun gp xo => chr.length = gp.length ∧ ∃ h : α → α, xo = rprob1g h chr gp) st)
+    (hops : ∀ op ∈ ops, OkOp (fun gp xo => chr.length = gp.length ∧ ∃ h : α → α, xo = rprob1g h chr gp) op)
+    (i : Nat) (hi : i < (run st ops).objs.length) :
+    ∃ gp xo, read (run st ops) i = some (gp, xo) ∧ specStarts chr (xo.map some) = true := by
+  obtain ⟨p, hp, hl, h, hx⟩ := (good_run _ ops st hg hops).2 i hi
+  exact ⟨p.1, p.2, by rw [hp], by rw [hx]; exact spec_starts_sound h chr p.1 hl⟩
+
+-- non-vacuity: parent interpolated (arrays 0/1), child derived, child re-interpolated: the parent reads the old arrays
+example : let st := run (⟨[10, 11], [⟨1, 0⟩]⟩ : St Nat) [.derive 0, .interp 1 20 21]
+    (read st 0, read st 1) = (some (10, 11), some (20, 21)) := by decide
+example : WF (⟨[10, 11], [⟨1, 0⟩]⟩ : St Nat) := by
+  intro o ho; simp at ho; subst ho; simp
+example : Good (fun gp xo => xo = gp + 1) (⟨[10, 11], [⟨1, 0⟩]⟩ : St Nat) := by
+  refine ⟨by intro o ho; simp at ho; subst ho; simp, ?_⟩
+  intro i hi
+  have : i = 0 := by simpa using hi
+  subst this
+  exact ⟨(10, 11), by decide, rfl⟩
+/-- the in-place variant (`self._vrnt_xoprob[:] = xoprob`, NOT what the code does) breaks the other object: the
+    parent then reads the new probabilities next to its old positions -/
+example : let st := interpInPlace (run (⟨[10, 11], [⟨1, 0⟩]⟩ : St Nat) [.derive 0]) 1 20 21
+    read st 0 = some (10, 21) := by decide
+
+end sharedArrays
 
 end C02
